@@ -17,8 +17,9 @@ def build():
         ensures final(self).conn_state is None, final(self).handler == old(self).handler, final(self).main_thread == old(self).main_thread,
             final(self).epoch == old(self).epoch, final(self).flag_after_join == old(self).flag_after_join, final(self).flag_before_join == old(self).flag_before_join""")
     u.extracted_fn(lib, "wait", within=span, rename="wait_real",
-                   body_rw=[("R6", r'let shutdown_requested = \|\| \{.*?\};\s*\n', '\n'),
-                            ("R6", r'shutdown_requested\(\)', 'self.shutdown_requested_now()'),
+                   body_rw=[("R6", r'self\s*\.conn_state\s*\.as_ref\(\)\s*\.is_some_and\(\|s\| s\.shutdown_requested\.load\(Ordering::Acquire\)\)', 'self.shutdown_requested_now()'),
+                            ("R6", r'let shutdown_requested = \|\| \{\s*self\.shutdown_requested_now\(\)\s*\};', ''),
+                            ("R6", r'\bshutdown_requested\(\)', 'self.shutdown_requested_now()'),
                             ("R18", r'handle\.join\(\)\.map_err\(Error::WaitDaemon\)\?',
                              'join_handle(handle, &mut self.epoch).map_err(|e: AnyBox| -> (o: Error) ensures o == Error::WaitDaemon(e) { Error::WaitDaemon(e) })?')],
                    contract="""
